@@ -623,9 +623,10 @@ def scenario_probes(run, kinds, modules=('std', 'safe'), backends=('plain', 'dic
                     base = py_cfg(module, alg, ms, backend, km, nx=NX)
                     keys = list(range(1, NX + 1))
                     if 'clear' in kinds and 2 * ms + 1 <= NX:
-                        for keep in (True, False):
+                        for keep, hit in ((True, False), (True, True), (False, False)):
                             ops = [{'op': 'call', 'a': a} for a in keys[:ms]]
-                            ops += [{'op': 'call', 'a': keys[0]}]
+                            if hit:
+                                ops += [{'op': 'call', 'a': keys[0]}]
                             ops += [{'op': 'clear', 'keep': keep}]
                             ops += [{'op': 'call', 'a': a} for a in keys[ms:2 * ms + 2]]
                             ops += [{'op': 'info'}]
